@@ -23,7 +23,7 @@ TEXT = {
   ref="DESIGN.md §7 C05"),
  "C09": dict(
   technique="runtime monitoring: gate-controlled sequential histories vs reference ring (exact), concurrent histories vs linearization-invariant constraints; Miri + TSan",
-  level="Exploration over histories and schedules: (a) deterministic sequential histories (writer held inside next() with one entry in hand) compared exactly with a displace-oldest reference ring incl. the overflow counter; (b) 1-6 producers against a stalled/slow/free writer: per-producer order, conservation appended = delivered + overflow counter, every lost entry has >= capacity later appends; appends must return while the stream gate is closed. Scripted I/O errors of every kind and pending flush requests in overflow histories; global recorder with named queues; 16 KiB entries; appends during a pending shutdown. capacity set first, in the middle or last among the builder calls.",
+  level="Exploration over histories and schedules: (a) deterministic sequential histories (writer held inside next() with one entry in hand) compared exactly with a displace-oldest reference ring incl. the overflow counter; (b) 1-6 producers against a stalled/slow/free writer: per-producer order, conservation appended = delivered + overflow counter, every lost entry has >= capacity later appends; appends must return while the stream gate is closed. Scripted I/O errors of every kind and pending flush requests in overflow histories; global recorder with named queues; 16 KiB entries; appends during a pending shutdown. capacity set first, in the middle or last among the builder calls. The counter is also read while the writer is completely stalled.",
   note="Trusted: the gate protocol that makes (a) sequential (waits for the stream's own 'blocked' flag); local metrics recorder for the counter.",
   ref="DESIGN.md §7 C09"),
  "C02": dict(
@@ -58,7 +58,7 @@ TEXT = {
   ref="DESIGN.md §7 C06"),
  "C10": dict(
   technique="runtime monitoring: conservation oracle over aggregates received by an inspector sink, unique input ids; Miri + TSan",
-  level="Exploration over histories, schedules and inputs: inputs with unique ids and colliding (or thousands of distinct) keys merged into KeyedAggregator (by value/ref, several flush epochs), TeeSink, embedded Aggregate / MutexSink with merge-on-drop guards, WorkerSink with 1-8 producers, flush barriers and drop of the last handle. The oracle partitions the emitted aggregates by input id and checks sum / distribution / keep-last / one aggregate per key and flush / flush barrier / worker termination. Producers also request flushes concurrently with each other against a sometimes lagging worker; a hand-written Key whose Hash is coarser than its Eq. Nested distributions with repeated observations; contended MutexSink close; concurrent last drops and cancelled flushes on the worker sink. A float sort-and-merge distribution fed NaNs of both signs, infinities and -0.0 next to the integer one.",
+  level="Exploration over histories, schedules and inputs: inputs with unique ids and colliding (or thousands of distinct) keys merged into KeyedAggregator (by value/ref, several flush epochs), TeeSink, embedded Aggregate / MutexSink with merge-on-drop guards, WorkerSink with 1-8 producers, flush barriers and drop of the last handle. The oracle partitions the emitted aggregates by input id and checks sum / distribution / keep-last / one aggregate per key and flush / flush barrier / worker termination. Producers also request flushes concurrently with each other against a sometimes lagging worker; a hand-written Key whose Hash is coarser than its Eq. Nested distributions with repeated observations; contended MutexSink close; concurrent last drops and cancelled flushes on the worker sink. A float sort-and-merge distribution fed NaNs of both signs, infinities and -0.0 next to the integer one. An optional keep-last field; worker sinks that never flush periodically (Duration::MAX).",
   note="Trusted: inspector sink; Drop wrapper around the inner sink for termination; progress watchdog with the flush-call counter as evidence.",
   ref="DESIGN.md §7 C10"),
  "C11": dict(
@@ -73,7 +73,7 @@ TEXT = {
   ref="DESIGN.md §7 C12"),
  "C13": dict(
   technique="runtime monitoring: entries at a counting sink vs reference over exhaustively enumerated op sequences and concurrent drops; Miri + TSan",
-  level="Exploration over histories and schedules: every single-thread op sequence up to a depth bound over a parent with a Slot and a LazySlot (open wait/discard incl. second open, mutate, drop guard, wait_for_data, force-flush guard) is executed and the appended entries compared with the reference after every op; concurrently, parent / guards / force guard are dropped on separate threads with perturbation between the guard's send and the release of its flush guard. wait_for_data called repeatedly; guards dropped by unwinding (panic) as well as normally. Budget-exhausted tokio task; deprecated open_slot path; release-profile leg. delay_flush on open guards of either mode; a persistent observer Debug-formats a wait-mode guard while flush_guard() is taken.",
+  level="Exploration over histories and schedules: every single-thread op sequence up to a depth bound over a parent with a Slot and a LazySlot (open wait/discard incl. second open, mutate, drop guard, wait_for_data, force-flush guard) is executed and the appended entries compared with the reference after every op; concurrently, parent / guards / force guard are dropped on separate threads with perturbation between the guard's send and the release of its flush guard. wait_for_data called repeatedly; guards dropped by unwinding (panic) as well as normally. Budget-exhausted tokio task; deprecated open_slot path; release-profile leg. delay_flush on open guards of either mode; a persistent observer Debug-formats a wait-mode guard while flush_guard() is taken. A wait_for_data future dropped un-polled.",
   note="Trusted: counting sink; linearization-invariant assertions only in the concurrent part.",
   ref="DESIGN.md §7 C13"),
  "C07": dict(
@@ -83,12 +83,12 @@ TEXT = {
   ref="DESIGN.md §7 C07"),
  "C15": dict(
   technique="runtime monitoring: differential of recorded call logs, plain entry vs wrapped entry, against the documented effect of each wrapper",
-  level="Exploration over inputs: generated entries (incl. errors, empty values, repeated names, configs, sample groups) under random compositions (depth <= 4) of boxed/Box/Option/Arc/Cow/merge/WithGlobalDimensions/WithDimensions/ForceFlag, values nested in Option/Box/Arc/Cow/&/WithDimensions/ForceFlag to depth 3, the stream/format adapters, RootEntry; ordered call log and sample group must equal the documented function of the plain entry's. Long-lived adapters with downstream failures in between; inexact sample-group size hints; an entry after an unwound boxed write. A flag constructor returning no flag; zero-sized config objects sharing one address.",
+  level="Exploration over inputs: generated entries (incl. errors, empty values, repeated names, configs, sample groups) under random compositions (depth <= 4) of boxed/Box/Option/Arc/Cow/merge/WithGlobalDimensions/WithDimensions/ForceFlag, values nested in Option/Box/Arc/Cow/&/WithDimensions/ForceFlag to depth 3, the stream/format adapters, RootEntry; ordered call log and sample group must equal the documented function of the plain entry's. Long-lived adapters with downstream failures in between; inexact sample-group size hints; an entry after an unwound boxed write. A flag constructor returning no flag; zero-sized config objects sharing one address. Zero-sized globals through merge_globals / merge; a long-lived WithGlobalDimensions whose dimensions are rotated.",
   note="Trusted: recording writer; the expected-effect functions in checks/src/bin/c15_wrappers.rs.",
   ref="DESIGN.md §7 C15"),
  "C17": dict(
   technique="runtime monitoring: op histories dispatched to threads/runtimes vs a reference routing state machine; racing appends vs detach with an exactly-one oracle; TSan",
-  level="Exploration over histories and schedules: random histories of attach / detach / thread-local and runtime test sinks / append / try_append / sink() on 3 worker threads x {no runtime, 2 runtimes}, every outcome (destination, documented panic, entry handed back) compared with the reference; appends racing with the detach of a BackgroundQueue-backed attachment must be Ok <=> written before the detach returned. 2-4 threads attaching to a detached global at the same moment (exactly one may win). Drops by unwinding; noisy histories (contention from another runtime's context, rejected attaches); same-named global types; routing restored only after the detached sink flushed. attach_to_stream() (also inside runtime contexts / on threads with test sinks); appends that panic inside the destination.",
+  level="Exploration over histories and schedules: random histories of attach / detach / thread-local and runtime test sinks / append / try_append / sink() on 3 worker threads x {no runtime, 2 runtimes}, every outcome (destination, documented panic, entry handed back) compared with the reference; appends racing with the detach of a BackgroundQueue-backed attachment must be Ok <=> written before the detach returned. 2-4 threads attaching to a detached global at the same moment (exactly one may win). Drops by unwinding; noisy histories (contention from another runtime's context, rejected attaches); same-named global types; routing restored only after the detached sink flushed. attach_to_stream() (also inside runtime contexts / on threads with test sinks); appends that panic inside the destination. with_test_sink with returning and panicking closures; test sinks of four runtimes installed/used/dropped at once.",
   note="Trusted: the reference state machine; counting sinks; recording stream of the detached queue.",
   ref="DESIGN.md §7 C17"),
  "C18": dict(
